@@ -135,7 +135,7 @@ def shards(tier, seed):
     return [{"seed": s, "pool": 18 if q else 60, "schedules": 4 if q else 40, "tier": tier} for s in shard_seeds(seed, 16, "C12")]
 
 
-def gen_schedule(rnd, pool):
+def gen_schedule(rnd, pool, force=None):
     nt = rnd.choice([2, 3, 4, 6, 8, 12, 16])
     style = rnd.choice(["mixed", "mixed", "same-input", "compile-only", "decompile-only"])
     big = [i for i in range(len(pool)) if pool[i].get("cls") == "many-routines"]
@@ -151,12 +151,14 @@ def gen_schedule(rnd, pool):
         assign = [list(one) for _ in range(nt)]
     else:
         assign = [[rnd.choice(ids) for _ in range(per)] for _ in range(nt)]
-    deep = [i for i in range(len(pool)) if pool[i].get("cls") == "deep-nesting" and pool[i].get("keep")]
-    if deep and style in ("mixed", "compile-only") and rnd.random() < 0.35:
+    deep = sorted((i for i in range(len(pool)) if pool[i].get("cls") == "deep-nesting" and pool[i].get("keep")), key=lambda i: -len(pool[i]["text"]))
+    if force in ("deep", "big"):
+        style = "mixed"
+    if deep and (force == "deep" or (force is None and style in ("mixed", "compile-only") and rnd.random() < 0.35)):
         # one thread compiles a deeply nested script (twice) while the others start and finish small calls all the time
         assign = [[deep[0], deep[0]]] + [[rnd.choice(ids) for _ in range(6)] for _ in range(min(nt, 5) - 1)]
         until = True
-    elif big and style in ("mixed", "decompile-only") and rnd.random() < 0.5:
+    elif big and (force == "big" or (force is None and style in ("mixed", "decompile-only") and rnd.random() < 0.5)):
         # one thread works on a script with hundreds of routines while the others do small things
         dec = [i for i in ids if pool[i]["k"] != "compile"] or ids
         assign = [[big[0]]] + [[rnd.choice(dec) for _ in range(6)] for _ in range(min(nt, 5) - 1)]
@@ -282,7 +284,8 @@ def run_shard(shard, acc, forced=None):
                 run_schedule(acc, pool, gold, forced[0], base)
             return
         for s in range(shard["schedules"]):
-            sched = gen_schedule(rnd, pool)
+            # (every shard has one schedule around the deeply nested script and one around the script with hundreds of routines)
+            sched = gen_schedule(rnd, pool, force={1: "deep", 2: "big"}.get(s))
             if s == 0:
                 sched["cold"] = False  # the very first schedule of the process has genuinely cold caches anyway
             acc.announce("schedule", {"threads": len(sched["threads"]), "style": sched["style"]})
